@@ -120,6 +120,7 @@ pub fn execute(sim: &mut Sim, op: &UserOp) {
                     sim.oracle.rewinds.push((mf_before, mf_after.min(mf_before), genesis));
                 }
             }
+            sim.oracle.c06.progress.clear();
             if let Some(Ok(_)) = r {
                 let mut o = std::mem::take(&mut sim.oracle);
                 o.model_set_scripts(cmd, &list, pending_start);
